@@ -1347,3 +1347,125 @@ Proof.
   apply bind_ok in HB. destruct HB as (body' & Hb' & HB). inversion HB; subst t'.
   apply D in Hb'. subst body'. reflexivity.
 Qed.
+
+(* ====================================================================== *)
+(* Stage 2: the reader never looks at token positions                      *)
+(* ====================================================================== *)
+
+Definition tok_pos_sim (t1 t2 : token) : Prop := ttext t1 = ttext t2 /\ tcat t1 = tcat t2.
+
+(* the same tree up to every recorded position *)
+Inductive expr_pos_sim : expr -> expr -> Prop :=
+| PS_Text t1 t2 : tok_pos_sim t1 t2 -> expr_pos_sim (EText t1) (EText t2)
+| PS_Raw s p1 p2 : expr_pos_sim (ERaw s p1) (ERaw s p2)
+| PS_Str s : expr_pos_sim (EStr s) (EStr s)
+| PS_Cmd n a1 a2 b1 b2 p1 p2 :
+    Forall2 expr_pos_sim a1 a2 -> Forall2 expr_pos_sim b1 b2 ->
+    expr_pos_sim (ECmd n a1 b1 p1) (ECmd n a2 b2 p2)
+| PS_Named n a1 a2 b1 b2 p1 p2 :
+    Forall2 expr_pos_sim a1 a2 -> Forall2 expr_pos_sim b1 b2 ->
+    expr_pos_sim (ENamed n a1 b1 p1) (ENamed n a2 b2 p2)
+| PS_Math k b1 b2 p1 p2 : Forall2 expr_pos_sim b1 b2 -> expr_pos_sim (EMath k b1 p1) (EMath k b2 p2)
+| PS_Group k b1 b2 p1 p2 :
+    Forall2 expr_pos_sim b1 b2 -> expr_pos_sim (EGroup k b1 p1) (EGroup k b2 p2)
+| PS_Root b1 b2 : Forall2 expr_pos_sim b1 b2 -> expr_pos_sim (ERoot b1) (ERoot b2).
+
+(* position erasure *)
+Definition zt (t : token) : token := mkt (ttext t) 0 (tcat t).
+
+Fixpoint ze (e : expr) : expr :=
+  match e with
+  | EText t => EText (zt t)
+  | ERaw s _ => ERaw s 0
+  | EStr s => EStr s
+  | ECmd n a b _ => ECmd n (map ze a) (map ze b) 0
+  | ENamed n a b _ => ENamed n (map ze a) (map ze b) 0
+  | EMath k b _ => EMath k (map ze b) 0
+  | EGroup k b _ => EGroup k (map ze b) 0
+  | ERoot b => ERoot (map ze b)
+  end.
+
+Lemma zt_eq t1 t2 : tok_pos_sim t1 t2 <-> zt t1 = zt t2.
+Proof.
+  unfold tok_pos_sim, zt. split.
+  - intros [-> ->]. reflexivity.
+  - intro H. inversion H. auto.
+Qed.
+
+Lemma map_zt_eq l1 l2 : Forall2 tok_pos_sim l1 l2 -> map zt l1 = map zt l2.
+Proof.
+  induction 1 as [|t1 t2 r1 r2 Ht _ IH]; [reflexivity|]. simpl.
+  apply zt_eq in Ht. rewrite Ht, IH. reflexivity.
+Qed.
+
+Lemma map_eq_Forall2 {A} (R : A -> A -> Prop) (f : A -> A) (l1 : list A) :
+  Forall (fun x => forall y, f x = f y -> R x y) l1 ->
+  forall l2, map f l1 = map f l2 -> Forall2 R l1 l2.
+Proof.
+  induction 1 as [|x l1 Hx _ IH]; intros l2 E; destruct l2 as [|y l2]; try discriminate E.
+  - constructor.
+  - simpl in E. inversion E. constructor; [apply Hx; assumption | apply IH; assumption].
+Qed.
+
+(* equal erasures are related trees *)
+Lemma ze_eq_sim e1 : forall e2, ze e1 = ze e2 -> expr_pos_sim e1 e2.
+Proof.
+  induction e1 as [t|s p|s|n a b p IHa IHb|n a b p IHa IHb|k b p IHb|k b p IHb|b IHb]
+    using expr_ind'; intros e2 E; destruct e2; simpl in E; try discriminate E; inversion E; subst.
+  - constructor. apply zt_eq. assumption.
+  - constructor.
+  - constructor.
+  - constructor; [apply (map_eq_Forall2 expr_pos_sim ze _ IHa) | apply (map_eq_Forall2 expr_pos_sim ze _ IHb)]; assumption.
+  - constructor; [apply (map_eq_Forall2 expr_pos_sim ze _ IHa) | apply (map_eq_Forall2 expr_pos_sim ze _ IHb)]; assumption.
+  - constructor; apply (map_eq_Forall2 expr_pos_sim ze _ IHb); assumption.
+  - constructor; apply (map_eq_Forall2 expr_pos_sim ze _ IHb); assumption.
+  - constructor; apply (map_eq_Forall2 expr_pos_sim ze _ IHb); assumption.
+Qed.
+
+Lemma estr_ze e : estr (ze e) = estr e.
+Proof.
+  induction e as [t|s p|s|n a b p IHa IHb|n a b p IHa IHb|k b p IHb|k b p IHb|b IHb]
+    using expr_ind'; cbn [ze estr]; try reflexivity;
+    rewrite ?map_map;
+    repeat match goal with
+    | H : Forall _ ?l |- context [map (fun x => estr (ze x)) ?l] =>
+      rewrite (map_ext_in (fun x => estr (ze x)) estr l)
+        by (intros x Hx; rewrite Forall_forall in H; apply H; exact Hx)
+    end; reflexivity.
+Qed.
+
+Lemma estr_list_ze l : estr_list (map ze l) = estr_list l.
+Proof.
+  unfold estr_list. rewrite map_map. f_equal. apply map_ext. intro. apply estr_ze.
+Qed.
+
+Lemma arg_string_ze e : arg_string (ze e) = arg_string e.
+Proof. destruct e; cbn [ze arg_string]; try reflexivity; apply estr_list_ze. Qed.
+
+(* related trees serialise identically *)
+Lemma expr_pos_sim_estr e1 e2 : expr_pos_sim e1 e2 -> estr e1 = estr e2.
+Proof.
+  revert e2.
+  induction e1 as [t|s p|s|n a b p IHa IHb|n a b p IHa IHb|k b p IHb|k b p IHb|b IHb]
+    using expr_ind'; intros e2 H; inversion H; subst; cbn [estr]; try reflexivity.
+  - match goal with H' : tok_pos_sim _ _ |- _ => destruct H' as [H' _]; exact H' end.
+  - f_equal. f_equal. f_equal; f_equal.
+    + revert IHa. match goal with H' : Forall2 _ a _ |- _ => induction H' end; intro IH;
+        [reflexivity|]. inversion IH; subst. simpl. f_equal; auto.
+    + revert IHb. match goal with H' : Forall2 _ b _ |- _ => induction H' end; intro IH;
+        [reflexivity|]. inversion IH; subst. simpl. f_equal; auto.
+  - f_equal. f_equal; [|f_equal]; f_equal.
+    + revert IHa. match goal with H' : Forall2 _ a _ |- _ => induction H' end; intro IH;
+        [reflexivity|]. inversion IH; subst. simpl. f_equal; auto.
+    + revert IHb. match goal with H' : Forall2 _ b _ |- _ => induction H' end; intro IH;
+        [reflexivity|]. inversion IH; subst. simpl. f_equal; auto.
+  - f_equal. f_equal. f_equal.
+    revert IHb. match goal with H' : Forall2 _ b _ |- _ => induction H' end; intro IH;
+      [reflexivity|]. inversion IH; subst. simpl. f_equal; auto.
+  - f_equal. f_equal. f_equal.
+    revert IHb. match goal with H' : Forall2 _ b _ |- _ => induction H' end; intro IH;
+      [reflexivity|]. inversion IH; subst. simpl. f_equal; auto.
+  - f_equal.
+    revert IHb. match goal with H' : Forall2 _ b _ |- _ => induction H' end; intro IH;
+      [reflexivity|]. inversion IH; subst. simpl. f_equal; auto.
+Qed.
